@@ -125,7 +125,7 @@ def run(ctx):
         nrand, rlen = 300, 200
     else:
         plan = [("mem", 0, 4), ("mem", 1, 5), ("mem", 2, 6), ("mem", 3, 5), ("disk", 0, 4), ("disk", 1, 5), ("disk", 2, 5), ("disk", 3, 4),
-                ("recap", 1, 7), ("recap", 2, 7), ("recap", 3, 6)]
+                ("recap", 1, 6), ("recap", 2, 6), ("recap", 3, 6)]
         nrand, rlen = 3000, 300
     if os.environ.get("VERIF_C17_ONLY") == "recap":      # development aid
         plan = [p for p in plan if p[0] == "recap"]
